@@ -236,3 +236,10 @@ package table
 //@   loop 1:
 //@     invariant[idx]  0 <= #i && #i <= len(#s) && #s == c.routes
 //@     invariant[none] forall j int :: 0 <= j && j < #i ==> routeKey(c.routes[j]) != key
+
+// ---------------------------------------------------------------- NewTableConfig (C02, C20): the levels given are the levels used
+//@ func NewTableConfig(spoolDir string, badMetricsMaxAge string, vLegacy validate.LevelLegacy, vM20 validate.LevelM20, vOrder bool) (c TableConfig, err error)
+//@   property C02,C20
+//@   modifies *
+//@   ensures[levels_as_configured; C02] err == nil ==> c.Validation_level_legacy.Level == vLegacy.Level && c.Validation_level_m20.Level == vM20.Level && c.Validate_order == vOrder && c.SpoolDir == spoolDir
+//@   ensures[empty_lists] err == nil ==> len(c.routes) == 0 && len(c.blacklist) == 0 && len(c.aggregators) == 0 && len(c.rewriters) == 0
